@@ -26,7 +26,7 @@ def bounds(tier):
 
 
 def _meshes(tier, nd):
-    ms = list(scope.named_meshes(nd))
+    ms = list(scope.named_meshes(nd)) + scope.thin_meshes(nd)
     if tier == "thorough":
         blocks = (2, 2) if nd == 2 else (2, 2, 1)
         for t in scope.level0_tilings(blocks, 3):
@@ -42,7 +42,7 @@ def _meshes(tier, nd):
 
 
 def cases(tier, seed):
-    geos = {nd: scope.rotate(list(scope.geometries(nd)), seed) for nd in (2, 3)}
+    geos = {nd: scope.rotate(list(scope.geometries(nd)) + scope.extreme_geometries(nd), seed) for nd in (2, 3)}
     times = scope.rotate(scope.TIMES, seed)
     out = []
     for nd in (2, 3):
